@@ -34,7 +34,7 @@ func init() {
 		},
 		Plan: func(tier string) fw.Plan {
 			if tier == "thorough" {
-				return fw.Plan{Shards: 16, CasesPerShard: 2500, TimeoutSec: 3300}
+				return fw.Plan{Shards: 16, CasesPerShard: 4000, TimeoutSec: 3300}
 			}
 			return fw.Plan{Shards: 16, CasesPerShard: 60, TimeoutSec: 900}
 		},
